@@ -78,6 +78,79 @@ pub fn merge(prop: &str, tier: &str, parts: &[String]) -> i32 {
             infra.push(a);
         }
     }
+    // E5: per-case dump digests must be identical in every configuration
+    let mut digest_subs: Vec<String> = vec![];
+    if let Some(first) = parts.first() {
+        if let Some(dir) = std::path::Path::new(first).parent() {
+            if let Ok(rd) = std::fs::read_dir(dir) {
+                let fname = std::path::Path::new(first).file_name().unwrap().to_string_lossy().to_string();
+                for e in rd.filter_map(|e| e.ok()) {
+                    let n = e.file_name().to_string_lossy().to_string();
+                    if let Some(rest) = n.strip_prefix(&format!("{}.", fname)) {
+                        if let Some(sub) = rest.strip_suffix(".digests") {
+                            digest_subs.push(sub.to_string());
+                        }
+                    }
+                }
+            }
+        }
+    }
+    digest_subs.sort();
+    let mut cross_checked = 0u64;
+    if violations == 0 && !missing {
+        for sub in &digest_subs {
+            let mut tables: Vec<(String, Vec<(u64, String)>)> = vec![];
+            for (p, cfg) in parts.iter().zip(configs.iter()) {
+                let txt = std::fs::read_to_string(format!("{}.{}.digests", p, sub)).unwrap_or_default();
+                let rows: Vec<(u64, String)> = txt
+                    .lines()
+                    .filter_map(|l| l.split_once(' ').map(|(a, b)| (a.parse().unwrap_or(u64::MAX), b.to_string())))
+                    .collect();
+                tables.push((cfg.as_str().unwrap_or("?").to_string(), rows));
+            }
+            let (c0, t0) = &tables[0];
+            for (c, t) in &tables[1..] {
+                cross_checked += t.len() as u64;
+                let diff = if t.len() != t0.len() {
+                    Some(t0.len().min(t.len()) as u64)
+                } else {
+                    t0.iter().zip(t.iter()).find(|(a, b)| a != b).map(|(a, _)| a.0)
+                };
+                if let Some(case) = diff {
+                    // regenerate the case's entropy from (sub seed, case index)
+                    let key = subchecks.keys().find(|k| crate::engine::sanitize(k.split('@').next().unwrap_or("")) == *sub).cloned();
+                    let (max_len, seedhex, subname) = key
+                        .as_ref()
+                        .map(|k| {
+                            let s = &subchecks[k];
+                            (
+                                s["max_entropy_len"].as_u64().unwrap_or(0) as usize,
+                                s["sub_seed"].as_str().unwrap_or("0").to_string(),
+                                k.split('@').next().unwrap_or("").to_string(),
+                            )
+                        })
+                        .unwrap_or((0, "0".into(), sub.clone()));
+                    let base = u64::from_str_radix(&seedhex, 16).unwrap_or(0);
+                    let ent = crate::isolate::entropy_for(base, case, max_len);
+                    let dir = format!("{}/out/{}", root, prop);
+                    let _ = std::fs::create_dir_all(&dir);
+                    let path = format!("{}/{}-cross-config-{}.json", dir, sub, case);
+                    let doc = json!({
+                        "property": prop, "subcheck": subname, "kind": "entropy", "tier": tier, "seed": seed,
+                        "signature": format!("{}/{}/cross-config-mismatch", prop, sub),
+                        "detail": {"configs": [c0, c], "case_index": case,
+                                   "note": "per-case dump digests differ between configurations; ./run.sh replay <this file> prints both dumps"},
+                        "case_index": case, "entropy_hex": crate::engine::hex(&ent),
+                    });
+                    let _ = std::fs::write(&path, serde_json::to_string_pretty(&doc).unwrap());
+                    println!("VIOLATION property={} replay={}", prop, path);
+                    viol_detail.push(json!({"subcheck": subname, "signature": doc["signature"], "replay": path}));
+                    violations += 1;
+                    break;
+                }
+            }
+        }
+    }
     let ev = json!({
         "property_id": prop,
         "tier": tier,
@@ -92,6 +165,7 @@ pub fn merge(prop: &str, tier: &str, parts: &[String]) -> i32 {
             "configurations": configs,
             "subchecks": Value::Object(subchecks),
             "known_findings_reported": known,
+            "cross_config_case_digests_compared": cross_checked,
             "notes": notes,
             "violations_detail": viol_detail,
             "infrastructure_errors": infra,
@@ -105,6 +179,9 @@ pub fn merge(prop: &str, tier: &str, parts: &[String]) -> i32 {
     if let Err(e) = std::fs::write(&path, serde_json::to_string_pretty(&ev).unwrap() + "\n") {
         eprintln!("merge: cannot write {}: {}", path, e);
         return 2;
+    }
+    if violations > 0 {
+        return 1;
     }
     if missing {
         return 2;
